@@ -90,6 +90,9 @@ THEOREMS = [
     "OllamaVerif.Causal.defragCore_freeCount",
     "OllamaVerif.Causal.findStart_compact_none",
     "OllamaVerif.C06.full_only_without_room",
+    "OllamaVerif.C06.full_only_over_capacity",
+    "OllamaVerif.C06.posBound_run",
+    "OllamaVerif.C06.posBoundS_specStepT",
     "OllamaVerif.C06.freshEmpty_run",
     "OllamaVerif.C06.rejected_forward_abs",
     "OllamaVerif.C06.specStep_perm",
